@@ -71,7 +71,9 @@ def write_config(path: Path, **cfg) -> Path:
         elif isinstance(v, dict):
             lines.append(f"{k}:")
             for kk, vv in v.items():
-                if isinstance(vv, (list, tuple)):
+                if isinstance(vv, (list, tuple)) and not vv:
+                    lines.append(f"  {json.dumps(str(kk))}: []")
+                elif isinstance(vv, (list, tuple)):
                     lines.append(f"  {json.dumps(str(kk))}:")
                     for x in vv:
                         lines.append(f"    - {json.dumps(str(x))}")
